@@ -81,7 +81,7 @@ struct StopAfter {
     n: u64,
 }
 impl Host for StopAfter {
-    fn boundary(&mut self, _s: &mut Sess, turn: u64, _st: St) -> Result<bool, Crash> {
+    fn boundary(&mut self, _s: &mut Sess, turn: u64, _st: St, _events: usize) -> Result<bool, Crash> {
         if turn >= self.n {
             // abuse the Crash channel as an early exit
             return Err(Crash("\u{1}suspend".into()));
